@@ -1,8 +1,8 @@
 package an
 
 import (
-	"os"
 	"fmt"
+	"os"
 	"regexp"
 	"sort"
 	"strings"
